@@ -849,22 +849,20 @@ func stripName(r result) result {
 func explainDiff(ds *dataset, e *exprCase, mode string, start, lastStep, step int64, sv result, evalUp func(string) result) (bool, *explain) {
 	var first *explain
 	nchoices := 1
-	for choice := 0; choice <= nchoices && choice <= 64; choice++ {
-		// the loosest rule (resets: additional zero points) is tried last, after every regex reading failed
-		allowResets := choice == nchoices || choice == 64
-		c := choice
-		if allowResets {
-			c = 0
-		}
-		ok, ex, nregex := explainWith(ds, e, mode, start, lastStep, step, sv, evalUp, c, allowResets)
-		if choice == 0 {
-			first = ex
-			for k := 0; k < nregex && k < 3; k++ {
-				nchoices *= 4
+	// first pass: the tight rules under every reading of the regex matchers; second pass: the same readings with the
+	// looser shape rules (additional zero points of resets, trailing-point loss, superset / subset shapes) allowed on top
+	for _, loose := range []bool{false, true} {
+		for choice := 0; choice < nchoices && choice < 64; choice++ {
+			ok, ex, nregex := explainWith(ds, e, mode, start, lastStep, step, sv, evalUp, choice, loose)
+			if !loose && choice == 0 {
+				first = ex
+				for k := 0; k < nregex && k < 3; k++ {
+					nchoices *= 4
+				}
 			}
-		}
-		if ok {
-			return true, ex
+			if ok {
+				return true, ex
+			}
 		}
 	}
 	return false, first
@@ -915,6 +913,11 @@ func explainWith(ds *dataset, e *exprCase, mode string, start, lastStep, step in
 			ex.Rules = []string{fAbsentNeg}
 			return true, ex, nregex
 		}
+	}
+	if sv.Err == oversizeErr && hasMatrixSelector(e.Expr) && staleInSpan(ds, e.Expr, start, lastStep) {
+		// the bogus windows from time 0 on (see the staleness finding) make the answer explode
+		ex.Rules = []string{fStaleEnd}
+		return true, ex, nregex
 	}
 	if sv.Err != "" {
 		return false, nil, nregex
